@@ -161,6 +161,7 @@ def run_case(spec):
     it = Interp(tape=tape, ser_hook=ser_hook)
     it.explicit_loggers = True
     it.tb_without_exception = True
+    it.strict_warnings = spec["i"] % 3 == 0  # a third of the processes run with warnings turned into errors
     try:
         it.run(prog)
     finally:
